@@ -275,7 +275,7 @@ def run_real(cf, text, mode):
         return ("other", "%s:%s" % (site_of(e), cls), "%s: %s" % (type(e).__name__, str(e)[:200]))
 
 
-def classify(msg, rows_none):
+def classify(msg, rows_none, names=None):
     """InvalidCodecFeaturesError message -> (err_kind, field, column name) or None."""
     if rows_none:
         return ("ECsvMalformed", "", "")
@@ -290,7 +290,14 @@ def classify(msg, rows_none):
                         if rest2.endswith("' column"):
                             return (kind, f, rest2[: -len("' column")])
                     elif "' column: " in rest2:
-                        return (kind, f, rest2.split("' column: ", 1)[0])
+                        # a column NAME may itself contain "' column: ": every split position is a candidate;
+                        # prefer one that is a name actually present in the file
+                        parts = rest2.split("' column: ")
+                        cands = ["' column: ".join(parts[:i]) for i in range(1, len(parts))]
+                        for c in cands:
+                            if c in (names or ()):
+                                return (kind, f, c)
+                        return (kind, f, cands[0])
             return None
     if msg.startswith("Name '") and msg.endswith("' used more than once"):
         n = msg[len("Name '"): -len("' used more than once")]
@@ -719,7 +726,12 @@ def evaluate(ctx, tables, cf, enums, tag, text, mode):
                       observed=real[2], expected="a result or InvalidCodecFeaturesError")
         return rows, None, "other:" + real[1]
     if real[0] == "invalid":
-        k = classify(real[1], rows is None)
+        # names of the columns as written in the file (the row whose key is "name", else defaults)
+        names = set()
+        for r in (rows or []):
+            if r and r[0].strip() == "name":
+                names.update(c.strip() for c in r[1:])
+        k = classify(real[1], rows is None, names)
         if k is None:
             return rows, ("unknown",), "invalid:unclassified"
         return rows, ("invalid", k[0], k[1], k[2]), "invalid:" + k[0]
